@@ -414,6 +414,10 @@ def mgda(index, ctx, A, by_class):
         raise AnalysisError("anchor vanished: the weighting class MGDA is built on")
     # the solver: the method of the class that contains the optimisation loop (forward itself, or the helper it calls)
     with_loop = [f for f in cls.methods.values() if any(isinstance(n, ast.For) for n in ast.walk(f.node))]
+    if not with_loop:
+        # ... or a function of the module that the class calls (the solver moved out of the class)
+        called = {n.func.id for m_ in cls.methods.values() for n in ast.walk(m_.node) if isinstance(n, ast.Call) and isinstance(n.func, ast.Name)}
+        with_loop = [f for nm, f in cls.module.functions.items() if nm in called and any(isinstance(n, ast.For) for n in ast.walk(f.node))]
     fi = with_loop[0] if len(with_loop) == 1 else cls.lookup("forward")[1]
     ctx.analysed(fi.qualname)
     # an endless generator of iterates consumed by `zip(range(max_iters), it)` / `islice(it, max_iters)` is read as the one loop
@@ -421,12 +425,17 @@ def mgda(index, ctx, A, by_class):
     from ..normalize import fuse_generators
     import copy as _copy
 
-    from ..normalize import split_walrus
+    from ..normalize import inline_helpers, split_tuple_assigns, split_walrus
 
     fused = split_walrus(fuse_generators(fi.node, fi.module, index))  # `if (c := e) <= a:` reads `c = e; if c <= a:`
     if ast.dump(fused) != ast.dump(fi.node):
         fi = _copy.copy(fi)
         fi.node = fused
+    # straight-line helpers of the class / module called in the loop are read in place (`alpha, gamma = self._step(G, alpha)`)
+    inl = split_tuple_assigns(inline_helpers(fi, index))
+    if ast.dump(inl) != ast.dump(fi.node):
+        fi = _copy.copy(fi)
+        fi.node = inl
     loops_ = [n for n in ast.walk(fi.node) if isinstance(n, ast.For)]
     if len(loops_) != 1:
         ctx.undecided("R5", "MGDA: Frank-Wolfe loop", f"expected one loop, found {len(loops_)}", fi.loc())
@@ -571,9 +580,12 @@ def mgda(index, ctx, A, by_class):
         for t, lbl in cfg.guards_of(nd):
             if not (t.kind == "test" and isinstance(t.ast, ast.If) and any(t.ast is x for x in ast.walk(loop))):
                 continue
-            used = {n.id for n in ast.walk(t.ast.test) if isinstance(n, ast.Name)} - {"self"}
+            consts_ = {a_.arg for a_ in fi.node.args.args} - {x.id for x in ast.walk(fi.node) if isinstance(x, ast.Name) and isinstance(x.ctx, ast.Store)}  # parameters never rebound: thresholds
+            used = {n.id for n in ast.walk(t.ast.test) if isinstance(n, ast.Name)} - {"self"} - (consts_ - {gname})
             key = f"MGDA: early exit guarded by `{norm_text(t.ast.test)}`"
-            if gname is not None and used <= {gname}:
+            step_names = {gname} | {s2.targets[0].id for s2 in ast.walk(loop) if isinstance(s2, ast.Assign) and isinstance(s2.targets[0], ast.Name)
+                                    and isinstance(s2.value, ast.Name) and s2.value.id == gname}  # plain copies of the step size
+            if gname is not None and used and used <= step_names:
                 ctx.ok("R5", key, "exit decided by the step size alone (a dimensionless quantity)", _loc(fi, t.ast))
                 continue
             ev = scale_locs.get(str(t.ast.lineno))
@@ -586,6 +598,16 @@ def mgda(index, ctx, A, by_class):
     init = [s for s in fi.node.body if isinstance(s, ast.Assign) and isinstance(s.targets[0], ast.Name) and s.targets[0].id == a]
     okinit = False
     if init:
-        t = norm_text(init[0].value)
+        # the value the loop starts from: the last definition before the loop, with earlier definitions of the same name substituted
+        # (`alpha = ones(m); alpha = alpha / m`)
+        val = init[-1].value
+        for prev in reversed(init[:-1]):
+            class _Sub(ast.NodeTransformer):
+                def visit_Name(self, n_, prev=prev):
+                    return prev.value if n_.id == a and isinstance(n_.ctx, ast.Load) else n_
+            import copy as _cp
+            val = _Sub().visit(_cp.deepcopy(val))
+        t = norm_text(val)
         okinit = "ones" in t and "/" in t
+        init = [ast.copy_location(ast.Assign(targets=init[-1].targets, value=val), init[-1])]
     ctx.require(okinit, "R5", "MGDA: starts from the uniform weights", "alpha = ones(m)/m", f"initial alpha `{norm_text(init[0].value) if init else '?'}` is not ones(m)/m", _loc(fi, init[0]) if init else fi.loc())
